@@ -162,6 +162,9 @@ class Exec:
                 return ("lattr", base[1], e.attr)
             if isinstance(base, tuple) and base and base[0] == "view" and e.attr in ("dtype",):
                 return ("opaque", "dtype")
+            if isinstance(base, tuple) and base and base[0] == "view" and e.attr in ("size", "shape"):
+                # the view covers exactly the local block of the layout it was shaped for
+                return ("lattr", base[2], e.attr)
             return ("opaque", src(e))
         if isinstance(e, ast.Subscript):
             base = self.ev(e.value, g, loc)
@@ -282,6 +285,14 @@ class Exec:
     def run(self, mname, g: GridModel, args: dict, depth=0):
         m = self.methods[mname]
         loc = dict(args)
+        # optional parameters the call does not give take their defaults
+        params = [a.arg for a in m.args.args]
+        for p_, d in zip(params[len(params) - len(m.args.defaults):], m.args.defaults):
+            if p_ not in loc:
+                loc[p_] = self.ev(d, g, {})
+        for a, d in zip(m.args.kwonlyargs, m.args.kw_defaults):
+            if a.arg not in loc and d is not None:
+                loc[a.arg] = self.ev(d, g, {})
         try:
             self.block(m.body, g, loc)
         except _Return:
@@ -414,6 +425,30 @@ class Exec:
             else:
                 g.contents[b] = dict(cur=False, saved=False, layout=None)
                 g.events.append(("partial-copy", src(st)[:80]))
+        elif isinstance(val, tuple) and val and val[0] in ("prefix", "buf"):
+            # the leading elements of another buffer of the grid: a copy of its contents when the extent is that of the layout it holds
+            srcb = val[1]
+            c = g.contents[srcb]
+            ext = val[2] if val[0] == "prefix" else None
+            text = tgt[2] if tgt[0] == "prefix" else None
+            whole = ext is None and text is None
+
+            def covers(e_):
+                return e_ is None or (isinstance(e_, tuple) and e_[0] == "lattr" and e_[2] == "size" and e_[1] == c["layout"])
+            if srcb == b:
+                return
+            if whole or (covers(ext) and covers(text)):
+                g.contents[b] = dict(cur=c["cur"], saved=c["saved"], layout=c["layout"])
+            else:
+                g.contents[b] = dict(cur=False, saved=False, layout=None)
+                e_ = ext if not covers(ext) else text
+                if isinstance(e_, tuple) and e_[0] == "lattr" and e_[2] == "size" and c["layout"] is not None:
+                    g.events.append(("partial-copy", f"`{src(st)[:90]}` copies the first size({e_[1]}) elements - the local block size of layout `{e_[1]}` - "
+                                     f"of a buffer that holds the field in layout `{c['layout']}`: on a rank whose block is larger in `{c['layout']}` than "
+                                     f"in `{e_[1]}` (extents not divisible by the process counts) the tail of the field is not copied and stale values remain"))
+                elif c["layout"] is not None and (c["cur"] or c["saved"]):
+                    g.events.append(("partial-copy", f"`{src(st)[:90]}`: the number of elements copied is not the size of the layout the source "
+                                     f"buffer holds (`{c['layout']}`)"))
         elif isinstance(val, tuple) and val and val[0] == "opaque":
             raise ModelError(f"value stored into a buffer of the grid is not recognised: `{src(st)[:70]}`")
         else:
@@ -623,7 +658,7 @@ def explore(chk, ex: Exec, has_save: bool):
                     note("T5-refusal-before-mutation", op, True, "refusing assert precedes every mutation", h2)
                 continue
             for ev in g2.events:
-                note("T7-transpose-call", op, False, f"{ev[0]}: {ev[1]}", h2)
+                note("T7-copy-extent" if ev[0] == "partial-copy" else "T7-transpose-call", op, False, f"{ev[0]}: {ev[1]}", h2)
             bad = check_state(g2, spec2, has_save, ex)
             rules = {"T1-index-permutation", "T2-visible-field", "T3-view-coherence", "T4-save-protected"}
             for rule, msg in bad:
@@ -846,9 +881,11 @@ def run(chk):
     mod = chk.mod(U.GRID)
     chk.in_file(U.GRID)
     cls = mod.cls("Grid")
+    t_floor = 30
     try:
         typestate(chk, mod, cls)
     except AnalysisError as e:
+        t_floor = 0          # the undecided obligation below says why the typestate rules did not run
         # the model cannot read a method: the typestate rules are undecided, the remaining rules still run
         chk.ob("T0-typestate-model", cls, "Grid.__init__/setLayout/saveGridValues/freeGridSave/restoreGridValues", None,
                f"cannot decide: {e}", file=U.GRID, func="Grid")
@@ -867,5 +904,6 @@ def run(chk):
     # "layout changes never alter the field": the handler's element placement (same rules as C01)
     from .C01 import handler_contract
     handler_contract(chk, chk.mod(U.LAYOUT))
-    chk.floor("T", 30)
+    if t_floor:
+        chk.floor("T", t_floor)
     chk.floor("T9-driver-save-protocol", 3)
